@@ -53,8 +53,12 @@ U32 = 1 << 32
 
 # zero fill `b"\x00" * n` becomes a provenance run of n zeros (no realisation of n)
 _ZC = {b"\x00": hlib.ZeroByte()}
-hlib.strip_method(MSF, "_change_container_size", consts=_ZC)
-hlib.strip_method(MSF, "_write_share_data", consts=_ZC)
+# every MutableShareFile method that builds zero fill (today _change_container_size and _write_share_data; a
+# refactor may move the expression into a helper): recompiled with the zero-run stand-in
+_zc_methods = hlib.strip_class_consts(MSF, _ZC)
+for _m in ("_change_container_size", "_write_share_data"):
+    if _m not in _zc_methods and _m in vars(MSF):
+        hlib.strip_method(MSF, _m, consts=_ZC)
 # mutable_schema._header builds the initial container with b"".join([...]) of packed records
 mutable_schema._header = hlib.strip_logs(mutable_schema._header, consts={b"": BlobJoiner()})
 
